@@ -113,9 +113,15 @@ def unit_core(unit):
             fast = eng.fresh_bool("fast_mode")
             a.fast_mode = fast
             a.save_snapshot(ses.path)
+            P = lambda n, c, d=None: eng.prove(n, core._b(c), detail=d)
+            # taking the snapshot must not disturb the machine it is taken from
+            for name, _bits in BASE:
+                P(f"save:pure:reg:{name}", a.cpu.regs.get(getattr(RN, name)) == vals[name])
+            P("save:pure:power-state", _bool_eq(a.cpu.state.halted, halted))
+            P("save:pure:irq-latches", z3.And(_bool_eq(a._irq_pending, pend), _bool_eq(a._in_interrupt, inint), _bool_eq(a._key_irq_latched, latched)))
+            P("save:pure:counters", core.and_(a.instruction_count == ic, a.cycle_count == cc, a.call_depth == cd))
             b = PE.PCE500Emulator(save_lcd_on_exit=False)
             b.load_snapshot(ses.path)
-            P = lambda n, c, d=None: eng.prove(n, core._b(c), detail=d)
             for name in ALL_NAMES:
                 P(f"restore:reg:{name}", b.cpu.regs.get(getattr(RN, name)) == a.cpu.regs.get(getattr(RN, name)))
             for i in range(14):
@@ -165,9 +171,13 @@ def unit_lcd(unit):
                         cells.append(v)
                 st.append(dict(on=on, busy=busy, sl=sl, pg=pg, y=y, cells=cells))
             a.save_snapshot(ses.path)
+            P = lambda n, c, d=None: eng.prove(n, core._b(c), detail=d)
+            for ci, (chip, s) in enumerate(zip(a.lcd.chips, st)):
+                P(f"save:pure:lcd{ci}", z3.And(_bool_eq(chip.state.on, s["on"]), _bool_eq(chip.state.busy, s["busy"]), T(chip.state.start_line) == T(s["sl"]),
+                                                T(chip.state.page) == T(s["pg"]), T(chip.state.y_address) == T(s["y"])),
+                  "taking the snapshot leaves the chip's flags and counters alone (no read side effects)")
             b = PE.PCE500Emulator(save_lcd_on_exit=False)
             b.load_snapshot(ses.path)
-            P = lambda n, c, d=None: eng.prove(n, core._b(c), detail=d)
             for ci, (chip, s) in enumerate(zip(b.lcd.chips, st)):
                 P(f"restore:lcd{ci}:on", _bool_eq(chip.state.on, s["on"]))
                 P(f"restore:lcd{ci}:busy", _bool_eq(chip.state.busy, s["busy"]), "the next status read returns the BUSY bit the original would return")
@@ -219,7 +229,15 @@ def unit_keyboard(unit):
             m._head, m._tail = head, tail
             for i, v in enumerate(slots):
                 m._fifo[i] = v
+            latched = eng.fresh_bool("key_latched")
+            a._key_irq_latched = latched
             a.save_snapshot(ses.path)
+            Pp = lambda n, c, d=None: eng.prove(n, core._b(c), detail=d)
+            Pp("save:pure:key", z3.And(_bool_eq(ks.pressed, pressed), _bool_eq(ks.debounced, deb), T(ks.press_ticks) == T(pt), T(ks.release_ticks) == T(rt),
+                                       T(ks.repeat_ticks) == T(rp)), "taking the snapshot does not step the key automaton (no scan tick, no key-input read)")
+            Pp("save:pure:queue", z3.And([T(m._head) == T(head), T(m._tail) == T(tail)] + [T(x) == T(y) for x, y in zip(list(m._fifo), slots)]),
+               "taking the snapshot does not consume or add queue entries")
+            Pp("save:pure:key-latch", _bool_eq(a._key_irq_latched, latched))
             b = PE.PCE500Emulator(save_lcd_on_exit=False)
             b.load_snapshot(ses.path)
             kb2 = b.keyboard
@@ -352,13 +370,17 @@ def unit_lockstep(unit):
     failed, n = [], 0
     steps = 0
     for r in res:
-        n += 2
+        n += 3
         steps += r["lockstep_steps"]
         model = dict(scenario=r["scenario"], save_point=r["save_point"], m=unit["m"])
         if r["n_graph_diffs"]:
             failed.append(dict(name=f"view-complete:{r['scenario']}@{r['save_point']}", model=model, backend="evaluation",
                                detail="attributes of the restored emulator that differ from the original and are not listed as bookkeeping: "
                                       + "; ".join(f"{d['path']}: {d['original']} -> {d['restored']}" for d in r["graph_diffs"][:6])))
+        if r.get("save_disturbs_original"):
+            d_ = r["save_disturbs_original"]
+            failed.append(dict(name=f"save-is-pure:{r['scenario']}@{r['save_point']}", model=model, backend="evaluation",
+                               detail=f"the emulator that took the snapshot differs from a twin that never saved, {d_['step']} step(s) after the save point, in {d_['fields']}"))
         if r["divergence"]:
             failed.append(dict(name=f"lockstep:{r['scenario']}@{r['save_point']}", model=model, backend="evaluation",
                                detail=f"restored emulator diverges from the original {r['divergence']['step']} step(s) after the save point in {r['divergence']['fields']}: "
